@@ -1,8 +1,9 @@
 """C16 — simplification keeps a 3-D tiling a valid manifold of the same topology."""
 import json
-from vlib import Violation, ToolError, log
+from vlib import Violation, ToolError, log, VERIF
 
-RULE = ("events = simplify on pseudo-toroidal covers of the corpus (with renumberings) and of domain symbols, on finite "
+RULE = ("events = simplify on pseudo-toroidal covers of the corpus, of the duals of its symbols and the recorded regression "
+        "inputs (each with random renumberings and plain repetitions of the call) and of domain symbols, on finite "
         "universal covers and on freely acting cyclic covers of spherical 3-D symbols (finite groups); non-trivial = "
         "event whose result differs in size from the input")
 
@@ -12,9 +13,11 @@ def run(ctx):
     ctx.assume("equality of fundamental groups is decided through first homology and small-index class counts, as the statement says")
     ev = ctx.work / "events.ndjson"
     if ctx.quick:
-        ctx.dsv("C16", "drive", "--out", ev, "--max3d", 3, "--permille", 500, "--per-base", 1, timeout=7200)
+        ctx.dsv("C16", "drive", "--out", ev, "--max3d", 3, "--permille", 500, "--per-base", 1,
+                "--variants", 4, "--repeats", 3, "--regress", VERIF / "corpora" / "c16_regress.ds", timeout=7200)
     else:
-        ctx.dsv("C16", "drive", "--out", ev, "--max3d", 3, "--permille", 1000, timeout=14400)
+        ctx.dsv("C16", "drive", "--out", ev, "--max3d", 3, "--permille", 1000,
+                "--variants", 40, "--repeats", 6, "--regress", VERIF / "corpora" / "c16_regress.ds", timeout=14400)
     for ln in open(ev):
         e = json.loads(ln)
         if e.get("some") and e["out"]["n"] != e["in"]["n"]:
